@@ -23,7 +23,7 @@ PID = "C24"
 SHARDS = {"quick": 8, "thorough": 16}
 
 KEYS3 = ["a", "b", "c"]
-KEYED = ["set", "get", "getitem", "del", "contains"]
+KEYED = ["set", "setnone", "get", "getitem", "del", "contains"]
 UNKEYED = ["len", "keys", "values", "items", "iter"]
 LISTINGS = ["keys", "values", "items", "iter"]
 
@@ -40,6 +40,9 @@ def _apply_real(cache, op, key, step):
     try:
         if op == "set":
             cache[key] = step
+            return ("ok", None)
+        if op == "setnone":
+            cache[key] = None  # None is a value like any other
             return ("ok", None)
         if op == "get":
             return ("ok", cache.get(key, "DEFAULT"))
@@ -72,6 +75,9 @@ def _apply_model(model: ModelLRU, op, key, step):
         if op == "set":
             model.set(key, step)
             return ("ok", None)
+        if op == "setnone":
+            model.set(key, None)
+            return ("ok", None)
         if op == "get":
             return ("ok", model.get(key, "DEFAULT"))
         if op == "getitem":
@@ -94,10 +100,54 @@ def _apply_model(model: ModelLRU, op, key, step):
     raise core.HarnessError(f"unknown op {op}")
 
 
+class SelfDeadlock(RuntimeError):
+    """The thread that holds the (non re-entrant) lock tries to take it again: it would wait for itself for ever."""
+
+
+class GuardLock:
+    """Stands in for a cache's lock and turns a self-deadlock into an exception instead of a hang."""
+
+    def __init__(self) -> None:
+        self._lock = threading.Lock()
+        self.owner = None
+
+    def acquire(self, *a, **kw):
+        me = threading.get_ident()
+        if self.owner == me:
+            raise SelfDeadlock("the lock is taken again by the thread that already holds it")
+        got = self._lock.acquire(*a, **kw)
+        if got:
+            self.owner = me
+        return got
+
+    def release(self) -> None:
+        self.owner = None
+        self._lock.release()
+
+    def locked(self) -> bool:
+        return self._lock.locked()
+
+    def __enter__(self):
+        self.acquire()
+        return self
+
+    def __exit__(self, *exc) -> None:
+        self.release()
+
+
+def _guarded(cache):
+    """Give a thread-safe cache a lock that reports a self-deadlock instead of hanging the check."""
+    if isinstance(getattr(cache, "_lock", None), type(threading.Lock())):
+        cache._lock = GuardLock()  # noqa: SLF001
+    return cache
+
+
 def _eval_seq(case, v: Verdict) -> None:
     cls = _classes()[case["cls"]]
     cap = case["cap"]
     cache = cls(cap)
+    if case["cls"] == "ts":
+        _guarded(cache)
     model = ModelLRU(cap)
     for step, (op, key) in enumerate(case["ops"]):
         r = _apply_real(cache, op, key, step)
@@ -133,7 +183,7 @@ def _eval_sched(case, v: Verdict) -> None:
     """
     cls = _classes()["ts"]
     cap = case["cap"]
-    cache = cls(cap)
+    cache = _guarded(cls(cap))
     model = ModelLRU(cap)
     open_it = None
     kind = None
@@ -215,7 +265,7 @@ def _eval_sched(case, v: Verdict) -> None:
 def _eval_threads(case, v: Verdict) -> None:
     cls = _classes()["ts"]
     cap = case["cap"]
-    cache = cls(cap)
+    cache = _guarded(cls(cap))
     nthreads = case["threads"]
     nops = case["nops"]
     keys = [f"k{i}" for i in range(case["nkeys"])]
@@ -299,11 +349,19 @@ class HookLock:
         self.releases = 0
         self.at = -1
         self.hook = None
+        self.owner = None
 
     def acquire(self, *a, **kw):
-        return self._lock.acquire(*a, **kw)
+        me = threading.get_ident()
+        if self.owner == me:
+            raise SelfDeadlock("the lock is taken again by the thread that already holds it")
+        got = self._lock.acquire(*a, **kw)
+        if got:
+            self.owner = me
+        return got
 
     def release(self) -> None:
+        self.owner = None
         self._lock.release()
         if self.hook is not None:
             self.releases += 1
